@@ -127,20 +127,22 @@ theorem emit_static_text {V} (record : Env V) (dynamic colorize cmNone : Bool)
 
 /-! ### (b) coloured messages: `_parse_with_formatting` against `str.format` -/
 
-/-- FULL statement (not proved – false of the current code, findings F5 and F13): the coloured path
+/-- FULL statement (not proved – false of the current code, known finding F21): the coloured path
 computes what `str.format` computes, same text or same error, for every template and all oracles -/
 def colored_eq_str_format_statement : Prop :=
   ∀ (env : Env Str) (t : Str), env.hasArgs = true → coloredFormat env t = strFormat env t
 
-/-- PROVED PART: on templates whose field names (top level and inside format specs) are empty, all
-digits, or start with a non-empty non-numeric first component (`simpleHeads`, decidable) and that have
-no third nesting level (`shallow`, decidable), the coloured path equals `str.format` – same text or
-same error kind – for every argument tuple/dict and all `__getattr__/__getitem__/__format__` oracles.
-Simulation of the two auto-numbering automata (`Format.R`), induction over the pieces at each level. -/
+/-- PROVED PART: on templates without a third nesting level (`shallow`, decidable) the coloured path
+equals `str.format` – same text or same error kind – for EVERY field name (automatic, numbered, named,
+with `.attr`/`[key]` accessors), every argument tuple/dict and all `__getattr__/__getitem__/__format__`
+oracles.  Since d5e7115 the numbering rule regenerated from /repo (`Gen.numberingSubject`,
+`Gen.headSeparators`, `Gen.autoIndexPrefixesName`) is `field_name_split`'s first-component rule
+(`Format.numberingText_eq`); a revert to the whole-name rule breaks this proof.  Simulation of the two
+auto-numbering automata (`Format.R`), induction over the pieces at each level. -/
 theorem colored_eq_str_format_partial {V} (env : Env V) (hA : env.hasArgs = true) (t : Str)
-    (h1 : simpleHeads t = true) (h2 : shallow t = true) :
+    (h2 : shallow t = true) :
     coloredFormat env t = strFormat env t := by
-  have h := colored_rel env hA t (simpleHeadsOk_of_simpleHeads h1) h2
+  have h := colored_rel env hA t (specsOk_all t) h2
   unfold coloredFormat strFormat
   rw [levels_eq.1]
   have e0 : Gen.autoArgIndexDefault = 0 := rfl
@@ -164,28 +166,29 @@ def demoEnv (args : List Str) : Env Str where
   convert := fun _ v => .ok v
   format := fun v spec => .ok (v ++ spec)
 
-/-- F5 witness 1 (replayed on the implementation by harness/c05.py): `"{.real}".format(1)` works,
-the coloured call raises `KeyError` -/
-theorem colored_ne_str_format_witness :
+/-- regression of F5 (fixed by d5e7115; also corpus cases of harness/c05.py): `"{.real}".format(1)` –
+the coloured call used to raise `KeyError`, now both render the attribute of argument 0 -/
+theorem colored_first_component_regression :
     strFormat (demoEnv ["1".toList]) "{.real}".toList = .ok "1.real".toList ∧
-    coloredFormat (demoEnv ["1".toList]) "{.real}".toList = .error .keyError := ⟨by rfl, by rfl⟩
+    coloredFormat (demoEnv ["1".toList]) "{.real}".toList = .ok "1.real".toList := ⟨by rfl, by rfl⟩
 
-/-- F5 witness 2: `"{0.real}{}"` must raise `ValueError` (manual → automatic numbering), the coloured
-call renders both fields -/
-theorem colored_ne_str_format_witness2 :
+/-- regression of F5: `"{0.real}{}"` switches from manual to automatic numbering – `ValueError` on
+both paths (the coloured call used to render `1.real1`) -/
+theorem colored_first_component_regression2 :
     strFormat (demoEnv ["1".toList]) "{0.real}{}".toList = .error .valueError ∧
-    coloredFormat (demoEnv ["1".toList]) "{0.real}{}".toList = .ok "1.real1".toList := ⟨by rfl, by rfl⟩
+    coloredFormat (demoEnv ["1".toList]) "{0.real}{}".toList = .error .valueError := ⟨by rfl, by rfl⟩
 
-/-- F13 witness: a third nesting level holding only escaped braces is refused by `str.format`
-("Max string recursion exceeded") and rendered by the coloured call -/
+/-- F21 witness (replayed on the implementation by harness/c05.py): a third nesting level holding only
+escaped braces is refused by `str.format` ("Max string recursion exceeded") and rendered by the
+coloured call -/
 theorem colored_depth_witness :
     strFormat (demoEnv ["1".toList]) "{0:{0:{{Y}}}}".toList = .error .valueError ∧
     coloredFormat (demoEnv ["1".toList]) "{0:{0:{{Y}}}}".toList = .ok "11{Y}".toList := ⟨by rfl, by rfl⟩
 
 theorem colored_eq_str_format_statement_false : ¬ colored_eq_str_format_statement := by
   intro h
-  have e := h (demoEnv ["1".toList]) "{.real}".toList rfl
-  rw [colored_ne_str_format_witness.1, colored_ne_str_format_witness.2] at e
+  have e := h (demoEnv ["1".toList]) "{0:{0:{{Y}}}}".toList rfl
+  rw [colored_depth_witness.1, colored_depth_witness.2] at e
   cases e
 
 /-! ### non-vacuity -/
@@ -198,8 +201,8 @@ example : prepareFormat "a{{b}}c{x[!:}]!r:>{w}}z".toList = .ok "a{{b}}c{x[!:}]!r
 
 example : prepareFormat "{a:{b:{c}}}".toList = .error .valueError := by rfl
 example : prepareFormat "{a!}".toList = .error .valueError := by rfl
-example : simpleHeads "{:>{w}} {a.b[0]!r:{}}{{".toList = true ∧ shallow "{:>{w}} {a.b[0]!r:{}}{{".toList = true := by decide
-example : simpleHeads "{.real}".toList = false ∧ shallow "{0:{0:{{Y}}}}".toList = false := by decide
+example : shallow "{:>{w}} {.b[0]!r:{}}{0.real}{{".toList = true := by decide
+example : shallow "{0:{0:{{Y}}}}".toList = false := by decide
 example : Accepts 3 "{a:{b}}".toList := (prepCheck_iff 3 _).1 (by decide)
 
 end C05
